@@ -294,14 +294,18 @@ Lemma ExitP_tr (s s' : st) ms ms' : plans s' = plans s -> mp ms' = mp ms -> Exit
 Proof.
   unfold ExitP, closeable. intros -> ->. auto.
 Qed.
-Lemma below_tr ms ms' (uc uc' : bool -> Prop) (oc oc' : Prop) fr below rb :
-  mono ms ms' -> mp ms' = mp ms -> (forall b, uc b -> uc' b) -> (oc -> oc') ->
+Lemma below_tr' ms ms' (uc uc' : bool -> Prop) (oc oc' : Prop) fr below rb :
+  mono ms ms' -> (forall b g, owed ms b g -> owed ms' b g) -> (forall b, uc b -> uc' b) -> (oc -> oc') ->
   below_ok ms uc oc fr below rb -> below_ok ms' uc' oc' fr below rb.
 Proof.
   intros Hm Hmp Hu Ho H. destruct H.
   - constructor. auto.
-  - constructor; auto. + eapply pairs_mono; eassumption. + eapply owed_mp; eassumption.
+  - constructor; auto. eapply pairs_mono; eassumption.
 Qed.
+Lemma below_tr ms ms' (uc uc' : bool -> Prop) (oc oc' : Prop) fr below rb :
+  mono ms ms' -> mp ms' = mp ms -> (forall b, uc b -> uc' b) -> (oc -> oc') ->
+  below_ok ms uc oc fr below rb -> below_ok ms' uc' oc' fr below rb.
+Proof. intros Hm Hmp. apply below_tr'; [exact Hm|]. intros b g. apply owed_mp; exact Hmp. Qed.
 Lemma Proc_tr (s s' : st) ms ms' (uc uc' : bool -> Prop) (oc oc' : Prop) ps fr :
   plans s' = plans s -> resps s' = resps s ->
   (stashed s' = stashed s \/ (exists e, stashed s' = Some e /\ ext_exn e = true) \/ stashed s' = None) ->
@@ -791,5 +795,340 @@ Proof.
 Qed.
 Lemma dstep_CFinalize (s : st) r pend s' c' o : dstep s (CFinalize r pend) = inl (s', c', o) -> False.
 Proof. unfold RE_Small.dstep. discriminate. Qed.
+
+(* ------------------------------------------------------------------ processing a message *)
+Lemma rewind_eqv (s : st) : eqv s (fst (rewind s)).
+Proof. unfold rewind. destruct (cache s); [destruct (Nat.eqb (length l) 0)|]; repeat split. Qed.
+
+(* what the command of a message does to the stacks: nothing, or (only `_start_suspender`) one helper frame with a None response *)
+Definition cmd_effect (s s' : st) (c : cres) (o : list obs) : Prop :=
+  Forall qobs o /\ track (state s) o = state s' /\ (state s' = Paused -> state s = Paused) /\
+  exc_slot s' = exc_slot s /\ stashed s' = stashed s /\ pc s' = pc s /\
+  ((plans s' = plans s /\ resps s' = resps s) \/
+   (exists h, wfh h /\ plans s' = FHelper h :: plans s /\ resps s' = RVal VNone :: resps s /\ c = Done (RVal VNone))).
+
+Lemma exec_start_suspender_effect (s : st) sid pre post s' c o :
+  exec_start_suspender plan_of dev s sid pre post = (s', c, o) -> cmd_effect s s' c o /\ exists r, c = Done r.
+Proof.
+  unfold exec_start_suspender. intros H.
+  destruct (record_interruptions s) as [[s1 o1] ok] eqn:E1. apply record_interruptions_HQ in E1.
+  destruct E1 as (((p1 & r1 & st1 & e1) & q1 & t1 & _) & ss1 & pc1 & _).
+  destruct ok; cbn in H.
+  2: { inversion H; subst. split; [|eauto]. repeat split; auto; try congruence. }
+  destruct (stop_movables dev s1) as [s2 o2] eqn:E2. apply stop_movables_HQ in E2.
+  destruct E2 as (((p2 & r2 & st2 & e2) & q2 & t2 & _) & ss2 & pc2 & _).
+  destruct (call_pausables dev s2 MPause) as [[s3 e] o3] eqn:E3. apply call_pausables_HQ in E3.
+  destruct E3 as (((p3 & r3 & st3 & e3) & q3 & t3 & _) & ss3 & pc3 & _).
+  assert (Hq : Forall qobs (o1 ++ o2 ++ o3)) by (repeat (apply Forall_app; split); assumption).
+  assert (Ht : track (state s) (o1 ++ o2 ++ o3) = state s3) by (rewrite !track_app, t1, t2, t3; reflexivity).
+  assert (Hs : state s3 = state s) by congruence.
+  destruct e as [x|].
+  { inversion H; subst. split; [|eauto]. repeat split; auto; try congruence. left; split; congruence. }
+  destruct (cache s3) eqn:Ec.
+  2: { inversion H; subst. split; [|eauto]. repeat split; auto; try congruence. left; split; congruence. }
+  destruct (rewind s3) as [s4 l0] eqn:E4.
+  pose proof (rewind_eqv s3) as E5. rewrite E4 in E5. cbn in E5. destruct E5 as (a1&a2&a3&a4&a5&a6&a7).
+  inversion H; subst; clear H. split; [|eauto].
+  split; [exact Hq|]. split; [cbn; congruence|]. split; [cbn; congruence|]. split; [cbn; congruence|].
+  split; [cbn; congruence|]. split; [cbn; congruence|]. right.
+  eexists. split; [|split; [cbn; rewrite a1, p3, p2, p1; reflexivity|split; [cbn; rewrite a2, r3, r2, r1; reflexivity|reflexivity]]].
+  unfold wfh. cbn. split; [|split; [|exact I]].
+  - intros q p0. destruct pre; intros E; inversion E; subst. unfold pid_pre. lia.
+  - intros q p0. destruct post; intros E; inversion E; subst. unfold pid_post. lia.
+Qed.
+
+Lemma exec_cmd_effect (s : st) m s' c o : exec_cmd dev s m = (s', c, o) -> cmd_effect s s' c o.
+Proof.
+  intros H. apply exec_cmd_HQ in H. destruct H as (((a1 & a2 & a3 & a4) & q & t & pz) & pcs).
+  repeat split; auto.
+Qed.
+Lemma exec_cmd_unknown (s : st) m : mcmd m = CUnknown -> exec_cmd dev s m = (s, Done (RExn EInvalidCommand), []).
+Proof. intros E. unfold exec_cmd. rewrite E. reflexivity. Qed.
+Lemma exec_cmd_susp (s : st) m s' k o : exec_cmd dev s m = (s', Susp k, o) -> is_unknown (mcmd m) = false.
+Proof. unfold exec_cmd. destruct (mcmd m); try reflexivity. intros H; inversion H. Qed.
+
+Definition canc (ms : mon) : mon := match mp ms with SAwait m0 => set_mp ms (SCanc m0) | _ => ms end.
+Definition seen_resp (ms : mon) (r : resp) : mon := match r with RExn e => add_seen ms e | RVal _ => ms end.
+
+Lemma mon_msg_own ms m : mp ms = SIn ->
+  mon_obs pid ms (OMsg m) = Some (set_mp ms (if is_unknown (mcmd m) then SGot m (RExn EInvalidCommand) else SAwait m), []).
+Proof. intros E. unfold mon_obs, settle. rewrite E. cbn. rewrite E. reflexivity. Qed.
+Lemma mon_msg_other ms m : mp ms <> SIn -> mon_obs pid ms (OMsg m) = Some (note_unknown m (canc ms), []).
+Proof. intros E. unfold mon_obs, settle, canc. destruct (mp ms) eqn:E0; try congruence; cbn; rewrite ?E0; reflexivity. Qed.
+Lemma mon_resp_own ms m r : mp ms = SAwait m -> mon_obs pid ms (OResp r) = Some (set_mp ms (SGot m r), []).
+Proof. intros E. unfold mon_obs, settle. rewrite E. cbn. rewrite E. reflexivity. Qed.
+Lemma mon_resp_other ms r : (forall m, mp ms <> SAwait m) -> mp ms <> SIn -> mon_obs pid ms (OResp r) = Some (seen_resp ms r, []).
+Proof. intros E1 E2. unfold mon_obs, settle, seen_resp. destruct (mp ms) eqn:E; try congruence; cbn; rewrite ?E; try reflexivity; exfalso; eapply E1; reflexivity. Qed.
+
+Lemma mono_note_unknown ms m : mono ms (note_unknown m ms).
+Proof. unfold note_unknown. destruct (is_unknown (mcmd m)); [apply mono_add_seen|apply mono_refl]. Qed.
+Lemma mono_canc ms : mono ms (canc ms).
+Proof. unfold canc. destruct (mp ms); intros e H; exact H. Qed.
+Lemma mono_seen_resp ms r : mono ms (seen_resp ms r).
+Proof. destruct r; [apply mono_refl|apply mono_add_seen]. Qed.
+Lemma owed_canc ms b g : owed ms b g -> owed (canc ms) b g.
+Proof. unfold owed, canc. destruct (mp ms) eqn:E; cbn; rewrite ?E; auto. Qed.
+Lemma mp_note_unknown ms m : mp (note_unknown m ms) = mp ms.
+Proof. unfold note_unknown. destruct (is_unknown (mcmd m)); reflexivity. Qed.
+Lemma mp_seen_resp ms r : mp (seen_resp ms r) = mp ms.
+Proof. destruct r; reflexivity. Qed.
+Lemma mstate_note_unknown ms m : mstate (note_unknown m ms) = mstate ms.
+Proof. unfold note_unknown. destruct (is_unknown (mcmd m)); reflexivity. Qed.
+Lemma mstate_canc ms : mstate (canc ms) = mstate ms.
+Proof. unfold canc. destruct (mp ms); reflexivity. Qed.
+Lemma mstate_seen_resp ms r : mstate (seen_resp ms r) = mstate ms.
+Proof. destruct r; reflexivity. Qed.
+Lemma canc_nawait ms : forall m, mp (canc ms) <> SAwait m.
+Proof. intros m. unfold canc. destruct (mp ms) eqn:E; cbn; congruence. Qed.
+Lemma canc_nin ms : mp ms <> SIn -> mp (canc ms) <> SIn.
+Proof. unfold canc. destruct (mp ms) eqn:E; cbn; congruence. Qed.
+Lemma canc_dead2 ms : dead2 (mp ms) -> mp (canc ms) = mp ms.
+Proof. unfold canc. intros [E|E]; rewrite E; exact E. Qed.
+
+(* the observations of one processed message, from a monitor state that is not waiting for the tracked plan's message:
+   the message, the command's quiet observations, its response *)
+Lemma MA_cmd_other ms m o3 (tail : list obs) r :
+  mp ms <> SIn -> Forall qobs o3 -> (tail = [] \/ tail = [OResp r]) ->
+  exists ms', MA pid ms ([OMsg m] ++ o3 ++ tail) ms' /\ mono ms ms' /\ mp ms' = mp (canc ms) /\
+              mstate ms' = track (mstate ms) o3 /\ (tail = [OResp r] -> rok ms' r) /\
+              (is_unknown (mcmd m) = true -> aE ms' EInvalidCommand).
+Proof.
+  intros Hn Hq Ht.
+  set (ms1 := note_unknown m (canc ms)).
+  assert (N1 : mp ms1 <> SIn) by (subst ms1; rewrite mp_note_unknown; apply canc_nin; exact Hn).
+  set (ms2 := set_mstate ms1 (track (mstate ms1) o3)).
+  assert (M12 : MA pid ms ([OMsg m] ++ o3) ms2).
+  { eapply MA_app; [eapply MA_one; apply mon_msg_other; exact Hn|apply MA_quiet; assumption]. }
+  assert (Hm2 : mono ms ms2).
+  { eapply mono_trans; [apply mono_canc|]. eapply mono_trans; [apply mono_note_unknown|]. apply mono_set_mstate. }
+  assert (Hu : is_unknown (mcmd m) = true -> aE ms2 EInvalidCommand).
+  { intros Eu. apply mono_set_mstate. subst ms1. unfold note_unknown. rewrite Eu. apply aE_add_seen. }
+  assert (Es : mstate ms2 = track (mstate ms) o3).
+  { cbn. subst ms1. rewrite mstate_note_unknown, mstate_canc. reflexivity. }
+  destruct Ht as [->| ->].
+  - exists ms2. rewrite app_nil_r. split; [exact M12|]. split; [exact Hm2|].
+    split; [cbn; subst ms1; apply mp_note_unknown|]. split; [exact Es|]. split; [discriminate|exact Hu].
+  - exists (seen_resp ms2 r). split.
+    { rewrite app_assoc. eapply MA_app; [exact M12|]. eapply MA_one. apply mon_resp_other.
+      - intros m0. cbn. subst ms1. rewrite mp_note_unknown. apply canc_nawait.
+      - exact N1. }
+    split; [eapply mono_trans; [exact Hm2|apply mono_seen_resp]|].
+    split; [rewrite mp_seen_resp; cbn; subst ms1; apply mp_note_unknown|].
+    split; [rewrite mstate_seen_resp; exact Es|].
+    split; [intros _; destruct r; cbn; [exact I|apply aE_add_seen]|].
+    intros Eu. apply mono_seen_resp, Hu, Eu.
+Qed.
+
+(* the same for the tracked plan's own message *)
+Lemma MA_cmd_own ms m o3 (tail : list obs) r :
+  mp ms = SIn -> Forall qobs o3 ->
+  ((is_unknown (mcmd m) = true /\ tail = [] /\ r = RExn EInvalidCommand) \/ (is_unknown (mcmd m) = false /\ tail = [OResp r])) ->
+  exists ms', MA pid ms ([OMsg m] ++ o3 ++ tail) ms' /\ mp ms' = SGot m r /\ mstate ms' = track (mstate ms) o3 /\
+              mseen ms' = mseen ms /\ mother ms' = mother ms.
+Proof.
+  intros Hi Hq Ht.
+  destruct Ht as [(Eu & -> & ->)|(Eu & ->)].
+  - set (ms1 := set_mp ms (SGot m (RExn EInvalidCommand))).
+    exists (set_mstate ms1 (track (mstate ms1) o3)). rewrite app_nil_r. split.
+    { eapply MA_app; [eapply MA_one; rewrite mon_msg_own, Eu; [reflexivity|exact Hi]|apply MA_quiet; [assumption|discriminate]]. }
+    repeat split.
+  - set (ms1 := set_mp ms (SAwait m)).
+    set (ms2 := set_mstate ms1 (track (mstate ms1) o3)).
+    exists (set_mp ms2 (SGot m r)). split.
+    { rewrite app_assoc. eapply MA_app; [eapply MA_app; [eapply MA_one; rewrite mon_msg_own, Eu; [reflexivity|exact Hi]|apply MA_quiet; [assumption|discriminate]]|].
+      eapply MA_one. apply mon_resp_own. reflexivity. }
+    repeat split.
+Qed.
+
+(* the command is suspended: the message and the quiet observations only *)
+Lemma MA_susp_own ms m o3 :
+  mp ms = SIn -> Forall qobs o3 -> is_unknown (mcmd m) = false ->
+  exists ms', MA pid ms ([OMsg m] ++ o3) ms' /\ mp ms' = SAwait m /\ mstate ms' = track (mstate ms) o3 /\
+              mseen ms' = mseen ms /\ mother ms' = mother ms.
+Proof.
+  intros Hi Hq Eu. set (ms1 := set_mp ms (SAwait m)).
+  exists (set_mstate ms1 (track (mstate ms1) o3)). split.
+  { eapply MA_app; [eapply MA_one; rewrite mon_msg_own, Eu; [reflexivity|exact Hi]|apply MA_quiet; [assumption|discriminate]]. }
+  repeat split.
+Qed.
+
+Lemma cproc_decomp (s : st) m :
+  exists s2 s3 cr o3,
+    eqv s s2 /\ cmd_effect s2 s3 cr o3 /\
+    (is_unknown (mcmd m) = true -> cr = Done (RExn EInvalidCommand) /\ o3 = []) /\
+    (forall k, cr = Susp k -> is_unknown (mcmd m) = false) /\
+    dstep s (CProcess m) =
+      match cr with
+      | Done r => inl (s3, CContinue true r, [OMsg m] ++ o3 ++ (if is_unknown (mcmd m) then [] else [OResp r]))
+      | Susp k => inr (set_pc s3 (PcCmd k), [OMsg m] ++ o3 ++ [OTask WFuture])
+      end.
+Proof.
+  unfold RE_Small.dstep.
+  match goal with |- context [exec_cmd dev ?x m] => set (s2 := x) end.
+  assert (E2 : eqv s s2).
+  { subst s2. destruct (mobj m); cbn; repeat break_match_goal; repeat split. }
+  destruct (match mcmd m with
+            | CStartSuspender sid pre post => exec_start_suspender plan_of dev s2 sid pre post
+            | _ => exec_cmd dev s2 m
+            end) as [[s3 cr] o3] eqn:E3.
+  exists s2, s3, cr, o3. split; [exact E2|].
+  assert (Heff : cmd_effect s2 s3 cr o3 /\
+                 (is_unknown (mcmd m) = true -> cr = Done (RExn EInvalidCommand) /\ o3 = []) /\
+                 (forall k, cr = Susp k -> is_unknown (mcmd m) = false)).
+  { destruct (mcmd m) eqn:Em.
+    all: try (split; [eapply exec_cmd_effect; exact E3|]; split; [cbn; discriminate|];
+              intros k ->; apply exec_cmd_susp in E3; rewrite Em in E3; exact E3).
+    - (* _start_suspender *)
+      apply exec_start_suspender_effect in E3. destruct E3 as (E3 & r & ->).
+      split; [exact E3|]. split; [cbn; discriminate|]. intros k Hk; discriminate.
+    - (* unknown *)
+      rewrite exec_cmd_unknown in E3 by exact Em. inversion E3; subst.
+      split; [|split; [auto|intros k Hk; discriminate]].
+      repeat split; auto. }
+  destruct Heff as (Heff & Hu & Hs). split; [exact Heff|]. split; [exact Hu|]. split; [exact Hs|].
+  destruct cr; [|reflexivity]. destruct (mcmd m); reflexivity.
+Qed.
+
+Lemma pst_eq_SIn (x : pst) : x = SIn \/ x <> SIn.
+Proof. destruct x; (left; reflexivity) || (right; discriminate). Qed.
+
+Lemma mono_same ms ms' : mseen ms' = mseen ms -> mother ms' = mother ms -> mono ms ms'.
+Proof. intros E1 E2 e H. unfold aE, allowed_exn in *. rewrite E1, E2. exact H. Qed.
+
+(* the stacks after the command of a message: unchanged, or one helper frame pushed *)
+Lemma effect_stacks (s s2 s3 : st) cr o3 : eqv s s2 -> cmd_effect s2 s3 cr o3 ->
+  stashed s3 = stashed s /\ exc_slot s3 = exc_slot s /\ track (state s) o3 = state s3 /\ (state s3 = Paused -> state s = Paused) /\
+  Forall qobs o3 /\ pc s3 = pc s /\
+  ((plans s3 = plans s /\ resps s3 = resps s) \/
+   (exists h, wfh h /\ plans s3 = FHelper h :: plans s /\ resps s3 = RVal VNone :: resps s /\ cr = Done (RVal VNone))).
+Proof.
+  intros (a1&a2&a3&a4&a5&a6&a7) (q & t & pz & e & st3 & pc3 & Hst).
+  repeat split; try congruence; try assumption.
+  - intros Hp. apply pz in Hp. congruence.
+  - destruct Hst as [(b1 & b2)|(h & Hw & b1 & b2 & b3)]; [left; split; congruence|right].
+    exists h. split; [exact Hw|]. split; [congruence|]. split; [congruence|exact b3].
+Qed.
+
+Lemma Proc_stacks (s s3 : st) ms (uc : bool -> Prop) (oc : Prop) fr cr :
+  Proc s ms uc oc [] fr -> stashed s3 = stashed s ->
+  ((plans s3 = plans s /\ resps s3 = resps s) \/
+   (exists h, wfh h /\ plans s3 = FHelper h :: plans s /\ resps s3 = RVal VNone :: resps s /\ cr = Done (RVal VNone))) ->
+  exists ps, Proc s3 ms uc oc ps fr /\ (ps = [] \/ cr = Done (RVal VNone)).
+Proof.
+  intros (below & rb & nones & H1 & H2 & H3 & H4 & H5 & H6 & H7) Es [(Ep & Er)|(h & Hw & Ep & Er & Ec)].
+  - exists []. split; [|left; reflexivity]. exists below, rb, nones. rewrite Ep, Er. repeat split; try assumption.
+    intros e He. rewrite Es in He. apply H7, He.
+  - exists [FHelper h]. split; [|right; exact Ec]. destruct nones; [|discriminate].
+    exists below, rb, [RVal VNone]. rewrite Ep, Er, H1, H2.
+    split; [reflexivity|]. split; [reflexivity|]. split; [reflexivity|].
+    split; [constructor; [reflexivity|constructor]|]. split; [constructor; [exact Hw|constructor]|].
+    split; [exact H6|]. intros e He. rewrite Es in He. apply H7, He.
+Qed.
+
+Lemma Gone_stacks (s s3 : st) ms ms' cr :
+  Gone s ms -> mp ms' = mp ms ->
+  ((plans s3 = plans s /\ resps s3 = resps s) \/
+   (exists h, wfh h /\ plans s3 = FHelper h :: plans s /\ resps s3 = RVal VNone :: resps s /\ cr = Done (RVal VNone))) ->
+  Gone s3 ms'.
+Proof.
+  intros [Hok Hd] Emp [(Ep & _)|(h & Hw & Ep & _)]; split; try (rewrite Emp; exact Hd).
+  - rewrite Ep; exact Hok.
+  - rewrite Ep. constructor; [exact Hw|exact Hok].
+Qed.
+
+Lemma dstep_CProcess (s : st) m ms s' c' o : Q s (CProcess m) ms -> dstep s (CProcess m) = inl (s', c', o) ->
+  exists ms', MA pid ms o ms' /\ Q s' c' ms'.
+Proof.
+  intros (Hst & Hex & Hty & Hq) H.
+  destruct (cproc_decomp s m) as (s2 & s3 & cr & o3 & E2 & Heff & Hu & Hs & Hd). rewrite Hd in H. clear Hd.
+  destruct cr as [r|k]; [|discriminate]. inversion H; subst; clear H.
+  destruct (effect_stacks _ _ _ _ _ E2 Heff) as (Est & Eex & Etr & Epz & Hqo & Epc & Hstk).
+  assert (Hnp : state s' <> Paused) by (intros Hp; apply Epz, Hty in Hp; exact Hp).
+  assert (Htail : (if is_unknown (mcmd m) then [] else [OResp r]) = [] \/ (if is_unknown (mcmd m) then [] else [OResp r]) = [OResp r])
+    by (destruct (is_unknown (mcmd m)); auto).
+  cbn in Hq.
+  destruct (pst_eq_SIn (mp ms)) as [Hin|Hin].
+  - (* the tracked plan's own message *)
+    destruct Hq as [Hq|(fr & Hp & Hsf)]; [destruct Hq as [_ [E|E]]; congruence|].
+    assert (Hown : (is_unknown (mcmd m) = true /\ (if is_unknown (mcmd m) then [] else [OResp r]) = [] /\ r = RExn EInvalidCommand) \/
+                   (is_unknown (mcmd m) = false /\ (if is_unknown (mcmd m) then [] else [OResp r]) = [OResp r])).
+    { destruct (is_unknown (mcmd m)) eqn:Eu; [left|right; auto]. destruct (Hu eq_refl) as [Er _]. inversion Er; auto. }
+    destruct (MA_cmd_own ms m o3 _ r Hin Hqo Hown) as (ms' & M & Emp & Ems & Esn & Emo).
+    exists ms'. split; [exact M|]. split; [rewrite Ems, Hst; exact Etr|]. split; [eapply exc_ok_tr; eassumption|].
+    split; [intros Hp'; contradiction|]. cbn. right.
+    destruct (Proc_stacks s s' ms (ucProc ms) True fr (Done r) Hp Est Hstk) as (ps & Hp' & Hps).
+    exists ps, fr. split.
+    + destruct Hp' as (below & rb & nones & H1 & H2 & H3 & H4 & H5 & H6 & H7).
+      exists below, rb, nones. repeat split; try assumption.
+      * destruct H6 as [p b (-> & _)|fr fs p b rs g _ _ _ _ Howed]; [|unfold owed in Howed; rewrite Hin in Howed; contradiction].
+        constructor. left. split; [reflexivity|]. left. eauto.
+      * intros e He. apply (mono_same ms ms' Esn Emo), H7, He.
+    + destruct Hps as [->|Er]; [right; split; [reflexivity|exact Hsf]|left; inversion Er; reflexivity].
+  - (* a message of an engine frame (or the tracked plan is gone) *)
+    destruct (MA_cmd_other ms m o3 _ r Hin Hqo Htail) as (ms' & M & Hmono & Emp & Ems & Hrok & Hunk).
+    exists ms'. split; [exact M|]. split; [rewrite Ems, Hst; exact Etr|]. split; [eapply exc_ok_tr; eassumption|].
+    split; [intros Hp'; contradiction|]. cbn.
+    destruct Hq as [Hq|(fr & Hp & Hsf)].
+    + left. eapply Gone_stacks; [exact Hq| |exact Hstk]. rewrite Emp. apply canc_dead2. exact (proj2 Hq).
+    + right. destruct (Proc_stacks s s' ms (ucProc ms) True fr (Done r) Hp Est Hstk) as (ps & Hp' & Hps).
+      exists ps, fr. split.
+      * destruct Hp' as (below & rb & nones & H1 & H2 & H3 & H4 & H5 & H6 & H7).
+        exists below, rb, nones. repeat split; try assumption.
+        -- destruct H6 as [p b (_ & Hb)|fr fs p b rs g Hfr _ Hfs Hpairs Howed]; [congruence|].
+           constructor; try assumption.
+           ++ destruct (is_unknown (mcmd m)) eqn:Eu.
+              ** destruct (Hu eq_refl) as [Er _]. inversion Er; subst. cbn. apply Hunk. reflexivity.
+              ** apply Hrok. reflexivity.
+           ++ eapply pairs_mono; eassumption.
+           ++ unfold owed. rewrite Emp. apply owed_canc in Howed. exact Howed.
+        -- intros e He. apply Hmono, H7, He.
+      * destruct Hps as [->|Er]; [right; split; [reflexivity|exact Hsf]|left; inversion Er; reflexivity].
+Qed.
+
+Lemma track_snoc_task a o w : track a (o ++ [OTask w]) = track a o.
+Proof. rewrite track_app. reflexivity. Qed.
+
+Lemma dstep_CProcess_fin (s : st) m ms s' o : Q s (CProcess m) ms -> dstep s (CProcess m) = inr (s', o) ->
+  exists ms', MA pid ms o ms' /\ Inv s' ms'.
+Proof.
+  intros (Hst & Hex & Hty & Hq) H.
+  destruct (cproc_decomp s m) as (s2 & s3 & cr & o3 & E2 & Heff & Hu & Hs & Hd). rewrite Hd in H. clear Hd.
+  destruct cr as [r|k]; [discriminate|]. inversion H; subst; clear H.
+  destruct (effect_stacks _ _ _ _ _ E2 Heff) as (Est & Eex & Etr & Epz & Hqo & Epc & Hstk).
+  assert (Hnp : state s3 <> Paused) by (intros Hp; apply Epz, Hty in Hp; exact Hp).
+  assert (Hstk' : plans s3 = plans s /\ resps s3 = resps s) by (destruct Hstk as [Hs'|(h & _ & _ & _ & Hc)]; [exact Hs'|discriminate]).
+  destruct Hstk' as (Ep & Er).
+  assert (Hq3 : Forall qobs (o3 ++ [OTask WFuture])) by (apply Forall_app; split; [exact Hqo|repeat constructor]).
+  specialize (Hs k eq_refl).
+  cbn in Hq.
+  destruct (pst_eq_SIn (mp ms)) as [Hin|Hin].
+  - destruct Hq as [Hq|(fr & Hp & Hsf)]; [destruct Hq as [_ [E|E]]; congruence|].
+    destruct (MA_susp_own ms m (o3 ++ [OTask WFuture]) Hin Hq3 Hs) as (ms' & M & Emp & Ems & Esn & Emo).
+    exists ms'. split; [exact M|]. split; [rewrite Ems, track_snoc_task, Hst; cbn; exact Etr|].
+    split; [eapply exc_ok_tr; [|exact Hex]; cbn; exact Eex|]. split; [intros Hp'; cbn in Hp'; contradiction|].
+    split; [congruence|]. unfold IP. cbn. right.
+    destruct Hp as (below & rb & nones & H1 & H2 & H3 & H4 & H5 & H6 & H7).
+    exists [], fr. split; [|split; [exact Hsf|intros Hx; congruence]].
+    exists below, rb, nones. cbn [plans resps stashed set_pc upd]. rewrite Ep, Er. repeat split; try assumption.
+    + destruct H6 as [p b (-> & _)|fr fs p b rs g _ _ _ _ Howed]; [|unfold owed in Howed; rewrite Hin in Howed; contradiction].
+      constructor. split; [reflexivity|eauto].
+    + intros e He. cbn in He. rewrite Est in He. apply (mono_same ms ms' Esn Emo), H7, He.
+  - destruct (MA_cmd_other ms m (o3 ++ [OTask WFuture]) [] (RVal VNone) Hin Hq3 (or_introl eq_refl)) as (ms' & M & Hmono & Emp & Ems & _ & _).
+    rewrite app_nil_r in M.
+    exists ms'. split; [exact M|]. split; [rewrite Ems, track_snoc_task, Hst; cbn; exact Etr|].
+    split; [eapply exc_ok_tr; [|exact Hex]; cbn; exact Eex|]. split; [intros Hp'; cbn in Hp'; contradiction|].
+    split; [rewrite Emp; apply canc_nin; exact Hin|]. unfold IP. cbn.
+    destruct Hq as [Hq|(fr & Hp & Hsf)].
+    + left. destruct Hq as [Hok Hd]. split; [cbn; rewrite Ep; exact Hok|rewrite Emp, canc_dead2; assumption].
+    + right. destruct Hp as (below & rb & nones & H1 & H2 & H3 & H4 & H5 & H6 & H7).
+      exists [], fr. split; [|split; [exact Hsf|intros Hx; congruence]].
+      exists below, rb, nones. cbn [plans resps stashed set_pc upd]. rewrite Ep, Er. repeat split; try assumption.
+      * destruct H6 as [p b (_ & Hb)|fr fs p b rs g Hfr _ Hfs Hpairs Howed]; [congruence|].
+        constructor; try assumption.
+        -- intros m0. rewrite Emp. apply canc_nawait.
+        -- eapply pairs_mono; eassumption.
+        -- unfold owed. rewrite Emp. apply owed_canc in Howed. exact Howed.
+      * intros e He. cbn in He. rewrite Est in He. apply Hmono, H7, He.
+Qed.
 
 End Proofs.
